@@ -299,6 +299,12 @@ def _try_position(src, pos):
             "replay_kind": "position", "position": pos}
 
 
+# syntax errors INSIDE the braces of an interpolated string, behind escapes and next to multi-byte characters: the spans of these errors are rebased (token start + 2 +
+# offset in the unescaped content), so they need not lie on a character boundary of the source - whatever is done with them must not slice the source there
+INTERP_ERRORS = ['from clients\nderive fiche = f"{nom}\\t{né le}"\nselect {nom, fiche}\n', 'from t\nderive x = s"\\t\\t{é é}"\n', 'from t\nderive x = f"\\n\\n\\n{日本 語}"\n',
+                 'from t\nderive x = f"\\u{e9}\\u{e9}{ü ü}é"\n']
+
+
 def replay(failure):
     """SU2: a syntax error after non-ASCII text; the parser's byte span exceeds the character count of the source.
     SU3*: a LEXER error after non-ASCII text (the span must be in characters).  IS*: where an error inside an f-string is reported."""
@@ -309,7 +315,7 @@ def replay(failure):
                 return r
         return {"failing": False}
     if not failure["obligation"].endswith("SU2"):
-        for src in ['from t\nfilter name == "héllo wörld"\nselect x = ^', 'from t # ééééééééé\nselect x = ^ + 1\nsort x', "from t\nselect x = '日本語' + ^"]:
+        for src in INTERP_ERRORS + ['from t\nfilter name == "héllo wörld"\nselect x = ^', 'from t # ééééééééé\nselect x = ^ + 1\nsort x', "from t\nselect x = '日本語' + ^"]:
             r = _try(src)
             if r["failing"]:
                 return r
@@ -336,6 +342,10 @@ def sweep():
     for src in ["from a\nselect {", "from a # cafe\nselect {a,", "from a # café 日本語テーブル\nselect {", "let x = \"éééééééé\"\nfrom t | select {a,", "from t | derive x = 'é' + | take 1"]:
         r = _try(src)
         r["obligation"] = "span_units.SU2"
+        out.append(r)
+    for src in INTERP_ERRORS:
+        r = _try(src)
+        r["obligation"] = "span_units.lexed_input.safety"
         out.append(r)
     for src, pos in POSITION_CASES:
         r = _try_position(src, pos)
